@@ -282,17 +282,18 @@ def run_case(kind, params, ctx):
         with RngShim() as sh:
             try:
                 if mode == 0:
-                    out = bu.sig(key, msg, sighash_flag=flag)
+                    out = bu.sig(key, msg, flag) if d % 2 else bu.sig(key, msg, sighash_flag=flag)
                     signed = msg + flag.to_bytes(4, "little")
                     vmsg, vpre = msg, False
                 elif mode == 1:
                     pre = msg + flag.to_bytes(4, "little")
-                    out = bu.sig(key, pre, sighash_flag=flag, msg_preimage=True)
+                    # the documented parameter order (key, msg, sighash_flag, msg_preimage), by position for every other case
+                    out = bu.sig(key, pre, flag, True) if d % 2 else bu.sig(key, pre, sighash_flag=flag, msg_preimage=True)
                     signed = pre
                     vmsg, vpre = pre, True
                 else:
                     pre = msg + flag.to_bytes(4, "little")
-                    out = bu.sig(key, pre, msg_preimage=True)
+                    out = bu.sig(key, pre, None, True) if d % 2 else bu.sig(key, pre, msg_preimage=True)
                     signed = pre
                     vmsg, vpre = pre, True
             except ContractViolation:
